@@ -10,8 +10,8 @@ PY = '/venv/bin/python'
 WHEELS = '/opt/veriftools/wheels'
 DEPS = os.path.join(VERIF, '.deps')
 BUILD = os.path.join(VERIF, '.build')
-EVIDENCE = os.path.join(VERIF, 'evidence')
-REPLAY = os.path.join(VERIF, 'replay')
+EVIDENCE = os.environ.get('VERIF_EVIDENCE_DIR') or os.path.join(VERIF, 'evidence')
+REPLAY = os.environ.get('VERIF_REPLAY_DIR') or os.path.join(VERIF, 'replay')
 GUARD = 'TOTALDEPTH_VERIF'
 
 
